@@ -18,6 +18,10 @@ func tableFileName(n int64) string { return fmt.Sprintf("%06d.sst", n) }
 // buildTableFile builds one table file with the real builder. Returns false if the build failed.
 func buildTableFile(cc *caseCtx, storeDir string, fileNumber int64, entries []entry, o writeOpts) (writeStats, uint32, bool) {
 	path := filepath.Join(storeDir, famDir, tableFileName(fileNumber))
+	if o.history != "" {
+		o.history = leavePredecessor(cc, path, fileNumber, entries, o.history)
+		o.prefix += " (built over " + o.history + " predecessor)"
+	}
 	b, err := table.NewStoreBuilder(table.FileNumber(fileNumber), path)
 	if err != nil {
 		cc.fail("C15/builder-create-error", "NewStoreBuilder(%s): %v", path, err)
@@ -51,6 +55,89 @@ func buildTableFile(cc *caseCtx, storeDir string, fileNumber int64, entries []en
 		st.failed = true
 	}
 	return st, b.Size(), true
+}
+
+// leavePredecessor puts a LONGER file at the path a table is about to be built at: the output of an
+// earlier build under the same file number (complete, abandoned midway, or torn). The new table must
+// replace it completely. Returns the history really produced ("none" if the table is too big for it).
+func leavePredecessor(cc *caseCtx, path string, fileNumber int64, entries []entry, kind string) string {
+	total := 0
+	for _, e := range entries {
+		total += len(e.value)
+	}
+	// upper bound of the size of the new table file: values + offsets + key bitmap + footer
+	bound := total + 16*len(entries) + 8192
+	if bound > 6<<20 {
+		return "none"
+	}
+	rnd := cc.rnd
+	salt := rnd.Uint64()
+	// the predecessor holds other keys and other bytes than the new table
+	predEntries := func() []entry {
+		var keys []uint32
+		for i, e := range entries {
+			if i >= 400 {
+				break
+			}
+			keys = append(keys, e.key^5, e.key^0x10000)
+		}
+		for i := 0; i < 8; i++ {
+			keys = append(keys, randU32(rnd))
+		}
+		keys = uniqSorted(keys)
+		per := bound/len(keys) + 1 + rnd.Intn(64)
+		es := make([]entry, len(keys))
+		for i, k := range keys {
+			es[i] = entry{k, fillValue(salt, k, per)}
+		}
+		return es
+	}
+	switch kind {
+	case "complete", "abandoned":
+		b, err := table.NewStoreBuilder(table.FileNumber(fileNumber), path)
+		if err != nil {
+			cc.fail("C15/builder-create-error", "predecessor NewStoreBuilder(%s): %v", path, err)
+			return "none"
+		}
+		for _, e := range predEntries() {
+			if err := b.Add(e.key, e.value); err != nil {
+				cc.fail("C15/add-error-on-ascending-key", "predecessor Add(%d): %v", e.key, err)
+			}
+		}
+		if kind == "complete" {
+			if err := b.Close(); err != nil {
+				cc.fail("C15/builder-close-error", "predecessor Close(): %v", err)
+			}
+		} else if err := b.Abandon(); err != nil {
+			cc.fail("C15/abandon-error", "predecessor Abandon(): %v", err)
+		}
+	case "partial":
+		if err := os.WriteFile(path, fillValue(salt, 1, bound+rnd.Intn(4096)), 0o644); err != nil {
+			panic(err)
+		}
+	default: // slightly-longer: learn the exact size of the new table from a dry build, leave 1..40 bytes more
+		kind = "slightly-longer"
+		b, err := table.NewStoreBuilder(table.FileNumber(fileNumber), path)
+		if err != nil {
+			cc.fail("C15/builder-create-error", "dry NewStoreBuilder(%s): %v", path, err)
+			return "none"
+		}
+		for _, e := range entries {
+			_ = b.Add(e.key, e.value)
+		}
+		if err := b.Close(); err != nil {
+			cc.fail("C15/builder-close-error", "dry Close(): %v", err)
+			return "none"
+		}
+		if err := os.WriteFile(path, fillValue(salt, 2, int(b.Size())+1+rnd.Intn(40)), 0o644); err != nil {
+			panic(err)
+		}
+	}
+	if fi, err := os.Stat(path); err != nil || fi.Size() < int64(total) {
+		panic(fmt.Sprintf("harness: predecessor at %s not in place: %v", path, err))
+	}
+	cc.r.count("tables_built_over_longer_predecessor_"+kind, 1)
+	return kind
 }
 
 // checkRawPrefix checks that the file starts with exactly the concatenation of the accepted values
@@ -149,6 +236,10 @@ func runTableCase(cc *caseCtx) {
 	entries := makeEntries(salt, keys, sizes)
 	mode := writeModes[rnd.Intn(len(writeModes))]
 	inject := rnd.Intn(10) < 4
+	history := ""
+	if rnd.Intn(4) == 0 {
+		history = pathHistories[rnd.Intn(len(pathHistories))]
+	}
 	total, maxOff := 0, 0
 	for i, s := range sizes {
 		if i == len(sizes)-1 {
@@ -157,7 +248,7 @@ func runTableCase(cc *caseCtx) {
 		total += s
 	}
 	cc.desc = map[string]interface{}{"shape": shape, "values": profile, "mode": mode, "inject": inject,
-		"keys": len(keys), "first_keys": headKeys(keys, 12), "last_key": keys[len(keys)-1], "total_bytes": total,
+		"path_history": history, "keys": len(keys), "first_keys": headKeys(keys, 12), "last_key": keys[len(keys)-1], "total_bytes": total,
 		"last_offset": maxOff, "salt": salt, "first_sizes": joinInts(sizes[:minInt(12, len(sizes))])}
 	fmt.Printf("CASE T %d %v\n", cc.idx, cc.desc)
 
@@ -172,7 +263,7 @@ func runTableCase(cc *caseCtx) {
 	var ws writeStats
 	var built bool
 	if !cc.guard("C15/panic-in-builder", func() {
-		ws, _, built = buildTableFile(cc, storeDir, fileNumber, entries, writeOpts{mode: mode, inject: inject, prefix: "table"})
+		ws, _, built = buildTableFile(cc, storeDir, fileNumber, entries, writeOpts{mode: mode, inject: inject, prefix: "table", history: history})
 	}) || !built {
 		return
 	}
